@@ -43,8 +43,8 @@ def numBusSync (w t : Nat) : NumMachine BSState where
   init := bsInit t
   step s ins :=
     match ins with
-    | [ti, to, mp, mq, mb, i] =>
-      let x : BSIn := { ti := n2b ti, to := n2b to, mPing := n2b mp, mPong := n2b mq, mBuf := mb, i := i }
+    | [ti, tO, mp, mq, mb, i] =>
+      let x : BSIn := { ti := n2b ti, tO := n2b tO, mPing := n2b mp, mPong := n2b mq, mBuf := mb, i := i }
       some (bsStep w t s x, [s.o])
     | _ => none
   key s := toString (repr s)
@@ -54,7 +54,7 @@ def numBusSync1 : NumMachine BS1State where
   init := { r1 := false, r2 := false }
   step s ins :=
     match ins with
-    | [to, i] => some (bs1Step s (n2b to) (n2b i), [b2n s.r2])
+    | [tO, i] => some (bs1Step s (n2b tO) (n2b i), [b2n s.r2])
     | _ => none
   key s := toString (repr s)
 
@@ -63,8 +63,8 @@ def numPulseSync : NumMachine PSState where
   init := psInit
   step s ins :=
     match ins with
-    | [ti, to, m, i] =>
-      some (psStep s { ti := n2b ti, to := n2b to, m := n2b m, i := n2b i }, [b2n (psOut s)])
+    | [ti, tO, m, i] =>
+      some (psStep s { ti := n2b ti, tO := n2b tO, m := n2b m, i := n2b i }, [b2n (psOut s)])
     | _ => none
   key s := toString (repr s)
 
